@@ -171,6 +171,7 @@ def fresh_const(base, sort):
     return z3.Const(fresh_name(base), sort)
 
 
+OBJ_TO_TERM = None    # set by a theory that can turn instances of repo classes into terms (alg facet)
 ORACLE = None     # set per path by run.explore: callable(cond) -> True | False | None (what the path condition implies)
 
 
@@ -303,6 +304,9 @@ def z_ite(c, a, b):
     if isinstance(a, SSeq) or isinstance(b, SSeq):
         a, b = SSeq.lift(a), SSeq.lift(b)
         return SSeq(z_ite(c, a.length, b.length), lambda k: z_ite(c, a.get(k), b.get(k)), a.kind)
+    if OBJ_TO_TERM is not None and (isinstance(a, Obj) or isinstance(b, Obj)):
+        a = OBJ_TO_TERM(a) if isinstance(a, Obj) else a
+        b = OBJ_TO_TERM(b) if isinstance(b, Obj) else b
     if hasattr(a, 'ite_merge'):
         return a.ite_merge(c, b, True)
     if hasattr(b, 'ite_merge'):
@@ -592,6 +596,10 @@ class SSeq(Value):
         if concrete(self.length) == 0:
             self.arr = arr
             return arr, []
+        if hasattr(self, 'items'):
+            u = unwrap or (lambda x: to_z3(x))
+            self.arr = arr
+            return arr, [arr[i] == u(x) for i, x in enumerate(self.items)]
         k = fresh_int('k')
         u = unwrap or (lambda x: to_z3(x))
         ax = z3.ForAll([k], arr[k] == u(self.get(k)), patterns=[arr[k]])
